@@ -5,6 +5,7 @@ package main
 import (
 	"fmt"
 	"go/ast"
+	"go/types"
 	"strings"
 )
 
@@ -325,6 +326,20 @@ func (c *RC) configDefaults() map[string]bool {
 					if id, ok := kv.Key.(*ast.Ident); ok {
 						if v, ok := ast.Unparen(kv.Value).(*ast.Ident); !ok || v.Name != "nil" {
 							out[id.Name] = true
+						}
+					}
+				}
+				// ... or assigns in the default builder or a helper that only it calls (not under a condition)
+				if as, ok := n.(*ast.AssignStmt); ok && len(as.Lhs) == len(as.Rhs) && len(enclosingConds(mem, as)) == 0 {
+					for i, l := range as.Lhs {
+						sel, ok := ast.Unparen(l).(*ast.SelectorExpr)
+						if !ok {
+							continue
+						}
+						if sl := mem.Pkg.TypesInfo.Selections[sel]; sl != nil && sl.Kind() == types.FieldVal && namedName(sl.Recv()) == "Config" {
+							if v, ok := ast.Unparen(as.Rhs[i]).(*ast.Ident); !ok || v.Name != "nil" {
+								out[sel.Sel.Name] = true
+							}
 						}
 					}
 				}
